@@ -9,8 +9,9 @@
      prodR           product of a list of reals                                                            *)
 From Coq Require Import Reals ZArith List Lra Lia.
 From Interval Require Import Xreal.
+From Flocq Require Import Core.
 From RD Require Import Base.Expr Base.Run Model.Sampler Model.Continuous Model.Discrete
-  Proofs.LawsInvCdf Proofs.LoopBounds Proofs.PmfBinomial Proofs.PmfHyper Proofs.SupportDiscrete Proofs.PmfModelEvents.
+  Proofs.LawsInvCdf Proofs.LoopBounds Proofs.PmfBinomial Proofs.PmfHyper Proofs.PmfZeta Proofs.SupportDiscrete Proofs.PmfModelEvents.
 Import ListNotations.
 Open Scope R_scope.
 
@@ -70,6 +71,16 @@ Theorem C02_model_geo_d_event : forall fuel pi PI failures ws, evalX pi = Xreal 
          nopanic (geo_d fuel pi failures ws).
 Proof. exact geo_d_event. Qed.
 
+(* Zeta on the model (the loop as called by `zeta t s`): every returned x >= 1 was proposed as floor(u^(-1/(s-1))) for the (0,1]
+   draw u and accepted with its second draw v <= zeta_accept (s-1) x, the probability for which C02_zeta_identity gives
+   proposal mass x acceptance = C x^-s; -1 stands for the documented +infinity of the proposal *)
+Theorem C02_model_zeta_event : forall fuel t s ws, 1 < dyR s -> Forall word ws ->
+  allout (fun q => fst q = (-1)%Z \/
+            exists U V, 0 < U <= 1 /\ 0 <= V < 1 /\ fst q = Zfloor (Rpower U (- 1 / (dyR s - 1))) /\ (1 <= fst q)%Z /\
+                        V <= zeta_accept (dyR s - 1) (IZR (fst q)))
+         nopanic (zeta_loop fuel t (Bin Sub (dyx s) one) (epow (num 2) (Bin Sub (dyx s) one)) ws).
+Proof. exact zeta_loop_event. Qed.
+
 (* non-vacuity: a concrete BINV state satisfies the hypotheses (n = 2, p = 1/2, start of the walk) *)
 Example C02_ex_model_binv : forall ws,
   allout (fun q => snd q = ws /\ match fst q with Some y => binv_cell 2 (1 / 2) (/ 2) 0 y | None => False end)
@@ -101,4 +112,5 @@ Print Assumptions C02_model_knuth_event.
 Print Assumptions C02_model_hin_event.
 Print Assumptions C02_model_geo_trivial_event.
 Print Assumptions C02_model_geo_d_event.
+Print Assumptions C02_model_zeta_event.
 Print Assumptions C02_ex_model_binv.
